@@ -40,4 +40,26 @@ theorem silent (history : List (List (String × String) × List String))
     rw [List.flatMap_cons, hall op (List.mem_cons_self ..), List.nil_append]
     exact ih (fun o ho => h o (List.mem_cons_of_mem _ ho)) (fun o ho => hall o (List.mem_cons_of_mem _ ho))
 
+/-- non-vacuity: the premise of `silent` holds for a three-operation history whose operations log records but reach no sink call site; the theorem applies. NOTE: because the regenerated table `Gen.outputSinks` is empty, the premise is satisfiable ONLY by histories whose operations reach no sink (next example) — the `hit` component of every witness is necessarily `[]`. -/
+example : (∀ op ∈ [(([] : List (String × String)), ["flushed 2 rows", "merge started"]), ([], []), ([], ["query done"])],
+      ∀ x ∈ op.1, x ∈ Gen.outputSinks) ∧
+    ([(([] : List (String × String)), ["flushed 2 rows", "merge started"]), ([], []), ([], ["query done"])].flatMap
+      (fun op => opOutput op.1 Gen.nilLoggerIsDiscard op.2) = []) := by
+  have h : ∀ op ∈ [(([] : List (String × String)), ["flushed 2 rows", "merge started"]), ([], []), ([], ["query done"])],
+      ∀ x ∈ op.1, x ∈ Gen.outputSinks := by
+    intro op hop x hx
+    simp only [List.mem_cons, List.not_mem_nil, or_false] at hop
+    rcases hop with rfl | rfl | rfl <;> cases hx
+  exact ⟨h, silent _ h⟩
+
+/-- non-vacuity (degeneracy made explicit): with the current (empty) sink table the premise of `silent` forces every operation's reached-sink list to be empty, so the theorem's content is carried by `no_sinks` (the table is empty, a nil logger discards) and by the logged records being dropped. -/
+example (history : List (List (String × String) × List String))
+    (h : ∀ op ∈ history, ∀ x ∈ op.1, x ∈ Gen.outputSinks) : ∀ op ∈ history, op.1 = [] := by
+  intro op hop
+  cases hc : op.1 with
+  | nil => rfl
+  | cons x xs =>
+    have := h op hop x (by rw [hc]; exact List.mem_cons_self ..)
+    rw [no_sinks.1] at this; cases this
+
 end BloomVerif.C27
